@@ -42,6 +42,9 @@ TEXTS = {
     "C10": {"engine": "sim+storefs", "design_ref": "DESIGN.md 3/C10", "technique": "stateful PBT with restart probes at generated history points (round trip across a second runner on the same store) + codec round-trip PBT over arbitrary payloads",
             "level_text": sim_text("around restart probes: at generated points of the history the reported state is recorded, the store saved (real JsonDataStore on disk) and a second runner built from it; every job must be terminal, capacity free, the id set unchanged and every finished job reported field by field as before.") + " A pure round-trip property over generated PersistedData covers the codec alone.",
             "level_note": SIM_NOTE + " Snapshots are taken at quiescent points of the harness (any mix of held loops, mid-run tasks, waiting jobs), not inside a critical section of the runner."},
+    "C12": {"engine": "sim", "design_ref": "DESIGN.md 3/C12", "technique": "stateful PBT over real stores on disk with a generated pre-loaded job population; set constraints and three-view agreement around every save",
+            "level_text": sim_text("around every explicit save: the sets of jobs before/after, the content of data.json, GET /pipelines/jobs and the log directory listing are compared against the constraints of the statement (only finished jobs removed, count/period bounds, newest kept first, undefined pipelines purged, logs removed with their job and untouched otherwise).") + " The population comes from a generated pre-loaded store (ages, states, undefined pipelines) plus live activity and reloads.",
+            "level_note": SIM_NOTE + " Ages at the period boundary are not generated (no clock injection). A stricter reference policy is computed too; disagreements that still satisfy the statement are only counted in the evidence."},
     "C14": {"engine": "httpauth", "design_ref": "DESIGN.md 3/C14", "technique": "enumerate routes (chi.Walk) x generated invalid credentials x transports; no-effect and no-leak oracle",
             "level_text": "Property-based enumeration: the route list comes from the router itself, every route/method/slash variant is probed with generated invalid credentials of 23 classes over 6 transports; the oracle is the status (401 on registered routes, never 2xx), absence of planted markers in the body and an unchanged runner state; positive controls with a valid token keep the oracle non-vacuous. A harness-side validity predicate excludes generated credentials that are in fact validly signed.",
             "level_note": "Trusted: HMAC-SHA256 unforgeability, chi.Walk listing every registered route (verif-only hook server.Routes), Go 1.23.5, rapid v1.3.0. Search over credential shapes, not a proof of the JWT library."},
@@ -57,7 +60,7 @@ TEXTS = {
 }
 
 ENGINES = [
-    {"name": "sim", "path": "harness/sim", "serves_properties": ["C01", "C02", "C03", "C04", "C05", "C06", "C07", "C08", "C10", "C15", "C16"],
+    {"name": "sim", "path": "harness/sim", "serves_properties": ["C01", "C02", "C03", "C04", "C05", "C06", "C07", "C08", "C10", "C12", "C15", "C16"],
      "kind_free_text": "controlled-schedule simulator: rapid state machine over the exported API of PipelineRunner with a harness-owned task runner, scheduler-loop hook and reference monitor"},
     {"name": "inputs", "path": "harness/inputs", "serves_properties": ["C17"], "kind_free_text": "pure generated-input properties (rapid) and native fuzz targets"},
     {"name": "storefs", "path": "harness/storefs", "serves_properties": ["C09", "C10"], "kind_free_text": "real JsonDataStore on disk: racing readers, SIGKILLed saver child (cmd/vhelper), strace fault injection"},
@@ -66,5 +69,5 @@ ENGINES = [
 
 NOT_APPLICABLE = [
     {"property_id": p, "reason": "check not built yet in this round (planned engine in DESIGN.md); not claimed until it exists"}
-    for p in [ "C11", "C12", "C13", "C18", "C19", "C20"]
+    for p in [ "C11", "C13", "C18", "C19", "C20"]
 ]
